@@ -134,8 +134,8 @@ class Run:
             cov["samples"] = samples
             cov["explanation"] = self.explanation
         else:
-            cov["evaluations"] = n_inst
-            cov["distinct_nontrivial"] = len(self.nontrivial_keys)
+            cov["evaluations"] = int(self.extra.get("evaluations", n_inst))
+            cov["distinct_nontrivial"] = int(self.extra.get("distinct_nontrivial", len(self.nontrivial_keys)))
             cov["rule"] = self.rule_text or ("rule instances are keyed by (rule, construct); an instance is non-trivial "
                                              "when the rule matched an actual construct of the source (non-vacuous)")
             cov["samples"] = samples
